@@ -212,6 +212,9 @@ C17_MICRO = [
     ("a4.c", "int\tfn(char *s)\n{\n\tif (cmp(s, {S}) == 0 && s[0] != {C})\n\t\treturn (len({S}));\n\twhile (s[0] == {C})\n\t\ts++;\n\tput({S}, {C}, s);\n\treturn (0);\n}\n"),
     ("a5.c", "/* {K} */\n#include <unistd.h> // {K}\n\n// {K}\nstatic char\t*g_s = {S}; /* {K} */\n\n/*\n** {K}\n*/\nint\tfn(void)\n{\n\treturn (g_s[0] == {C});\n}\n// {K}\n"),
     ("a7.c", "/*{K}*/\n#include <unistd.h> /*{K}*/\n\nint\tfn(void); /*{K}*/\n\n/*\n**{K}\n**{K}*/\nint\tfn(void)\n{\n\treturn (0);\n}\n"),
+    # multi-line block comments whose CLOSING line carries something the tool locates by column (trailing blank, code)
+    ("a8.c", "/*\n** {K}\n*/ \nint\tfn(void)\n{\n\treturn (0);\n}\n/* {K}\n{K} */\t\n"),
+    ("a9.c", "/* {K}\n*/ int\tg_a;\n\n/*\n{K}*/int\tfn(void)\n{\n\treturn (0);\n} /* {K}\n{K} */ \n"),
     ("a6.c", "int\tfn(char c)\n{\n\tchar\t*p;\n\n\tp = (char *){S};\n\tp = {S} + 1;\n\tc = {C} + 1;\n\tc = (char){C};\n\tc = -{C};\n\tfoo({S}, {S});\n\treturn (c == {C} || p[0] == {C});\n}\n"),
 ]
 
